@@ -118,15 +118,15 @@ theorem inner_keeps_open (t : TestInfo) (g : Bytes) : ∀ (l : List Ev) (s : St)
     have ih := inner_keeps_open t g es s (fun x hx => h x (List.mem_cons_of_mem _ hx))
     cases e with
     | print x =>
-      simp only [runB, msgsFrom_cons, stAfter_cons, msgsOf, step, List.cons_append, List.nil_append, balRun, balStep]
+      simp only [runB, msgsFrom_cons, stAfter_cons, msgsOf, step_eq_hand, stepHand, List.cons_append, List.nil_append, balRun, balStep]
       exact ih
     | veryVerbose x =>
       cases hv : s.veryVerbose <;>
-        simp only [runB, msgsFrom_cons, stAfter_cons, msgsOf, step, hv, Bool.false_eq_true, if_false, if_true,
+        simp only [runB, msgsFrom_cons, stAfter_cons, msgsOf, step_eq_hand, stepHand, hv, Bool.false_eq_true, if_false, if_true,
           List.cons_append, List.nil_append, balRun, balStep] <;> exact ih
     | failure f =>
       have hf : f.testName = t.name := he
-      simp only [runB, msgsFrom_cons, stAfter_cons, msgsOf, step, List.cons_append, List.nil_append, balRun, balStep, hf,
+      simp only [runB, msgsFrom_cons, stAfter_cons, msgsOf, step_eq_hand, stepHand, List.cons_append, List.nil_append, balRun, balStep, hf,
         if_true]
       exact ih
     | testRun _ _ => exact absurd he (by simp [okEv])
@@ -142,21 +142,21 @@ theorem test_keeps_suite (sc : Script) (r : R) (s : St) (g : Bytes) (hg : s.curr
     runB (.inSuite g) s (testEvs sc r) = some (.inSuite g) ∧ (stAfter s (testEvs sc r)).currGroup = g := by
   unfold testEvs
   cases hw : sc.info.willRun
-  · simp [runB, msgsFrom_cons, msgsFrom_nil, stAfter_cons, stAfter_nil, msgsOf, step, balRun, balStep, hw, hg]
+  · simp [runB, msgsFrom_cons, msgsFrom_nil, stAfter_cons, stAfter_nil, msgsOf, step_eq_hand, stepHand, balRun, balStep, hw, hg]
   · simp only [if_true]
     have ha := inner_keeps_open sc.info g (testInner sc.info sc.acts) { s with currTest := some sc.info.name }
       (InnerOK_testInner _ _)
     have h1 : runB (.inSuite g) s [Ev.testStarted sc.info] = some (.inTest g sc.info.name) := by
       simp [runB, msgsFrom_cons, msgsFrom_nil, msgsOf, hw, balRun, balStep]
     have h2 : stAfter s [Ev.testStarted sc.info] = { s with currTest := some sc.info.name } := by
-      simp [stAfter_cons, stAfter_nil, step]
+      simp [stAfter_cons, stAfter_nil, step_eq_hand, stepHand]
     constructor
     · show runB (.inSuite g) s ([Ev.testStarted sc.info] ++ (testInner sc.info sc.acts ++ [Ev.testEnded _ _])) = _
       rw [runB_append, h1, h2, Option.bind_some, runB_append, ha.1, ha.2, Option.bind_some]
       simp [runB, msgsFrom_cons, msgsFrom_nil, msgsOf, balRun, balStep]
     · show (stAfter s ([Ev.testStarted sc.info] ++ (testInner sc.info sc.acts ++ [Ev.testEnded _ _]))).currGroup = g
       rw [stAfter_append, stAfter_append, h2, ha.2]
-      simp [stAfter_cons, stAfter_nil, step, hg]
+      simp [stAfter_cons, stAfter_nil, step_eq_hand, stepHand, hg]
 
 theorem body_keeps_suite (flt : Option Filter) (sc : Script) (r : R) (s : St) (g : Bytes) (hg : s.currGroup = g) :
     runB (.inSuite g) s (bodyEvs flt sc r) = some (.inSuite g) ∧ (stAfter s (bodyEvs flt sc r)).currGroup = g := by
@@ -185,7 +185,7 @@ theorem loop_balanced (flt : Option Filter) : ∀ (tests : List Script) (gs : Bo
         (stAfter s (startEvs gs t)).currGroup = t.info.group := by
       rcases inv with ⟨hgs, hp⟩ | ⟨hgs, hp, t', rest', h, hg⟩
       · subst hgs; subst hp
-        simp [startEvs, runB, msgsFrom_cons, msgsFrom_nil, stAfter_cons, stAfter_nil, msgsOf, step, balRun, balStep]
+        simp [startEvs, runB, msgsFrom_cons, msgsFrom_nil, stAfter_cons, stAfter_nil, msgsOf, step_eq_hand, stepHand, balRun, balStep]
       · subst hgs
         cases h
         simp [startEvs, runB_nil, stAfter_nil, hp, hg]
@@ -272,7 +272,7 @@ theorem test_failures_open (sc : Script) (r : R) (s : St) (cur : Option Bytes) :
     failuresInOpenTest cur (msgsFrom s (testEvs sc r)) = true := by
   unfold testEvs
   cases hw : sc.info.willRun
-  · simp [msgsFrom_cons, msgsFrom_nil, msgsOf, step, hw, failuresInOpenTest]
+  · simp [msgsFrom_cons, msgsFrom_nil, msgsOf, step_eq_hand, stepHand, hw, failuresInOpenTest]
   · simp only [if_true]
     have hok := InnerOK_testInner sc.info sc.acts
     have ha := inner_failures_open sc.info (testInner sc.info sc.acts) { s with currTest := some sc.info.name } hok
@@ -280,7 +280,7 @@ theorem test_failures_open (sc : Script) (r : R) (s : St) (cur : Option Bytes) :
     show failuresInOpenTest cur (msgsFrom s ([Ev.testStarted sc.info] ++ (testInner sc.info sc.acts ++ [Ev.testEnded _ _]))) = _
     rw [msgsFrom_append, msgsFrom_append]
     have h2 : stAfter s [Ev.testStarted sc.info] = { s with currTest := some sc.info.name } := by
-      simp [stAfter_cons, stAfter_nil, step]
+      simp [stAfter_cons, stAfter_nil, step_eq_hand, stepHand]
     have h1 : msgsFrom s [Ev.testStarted sc.info] = [.testStarted sc.info.name] := by
       simp [msgsFrom_cons, msgsFrom_nil, msgsOf, hw]
     rw [h2, h1, hst, failuresInOpenTest_append, failuresInOpenTest_append]
